@@ -94,6 +94,11 @@ func verifyFunction(prog *ssa.Program, cs *Contracts, fn *ssa.Function, fc *Func
 	if len(f.rets) == 0 {
 		g.note("%s has no reachable return", res.Display)
 	}
+	for key := range fc.InlineLoops {
+		if !f.usedInlineLoops[key] {
+			g.degrade("loop %s of the contract of %s was not met while executing the function (callee renamed, not called any more, or not inlined)", key, res.Display)
+		}
+	}
 	return res
 }
 
